@@ -575,17 +575,14 @@ impl<W: Write> RdbWriter<W> {
                 self.write_byte(RdbOpcode::ZSet as u8)?;
                 self.write_string(key)?;
                 
-                // Get all items and write them
-                let len = skiplist.len();
-                self.write_length(len)?;
+                // The skip list is shared with the live key (Arc), so it can change while
+                // we write: materialize the members once and write the length of exactly
+                // that copy, otherwise length and members can disagree
+                let items = skiplist.get_all_items();
+                self.write_length(items.len())?;
                 
                 #[cfg(ferrous_verif)]
                 crate::verif::gate_tagged("rdb:zset_after_len", key);
-                
-                // Note: This is a suboptimal approach since we need to materialize
-                // all members in memory. A better approach would be to have a streaming
-                // iterator in the SkipList implementation.
-                let items = skiplist.range_by_rank(0, len - 1).items;
                 
                 for (member, score) in items {
                     self.write_string(&member)?;
